@@ -10,6 +10,7 @@ import enum
 import gc
 import json
 import os
+import re
 import select
 import signal
 import sys
@@ -132,7 +133,11 @@ def typed(o: Any, depth: int = 0) -> Any:
             type(o).__name__,
             [[a.name, typed(getattr(o, a.name), depth + 1)] for a in attrs.fields(type(o))],
         ]
-    return ["other", type(o).__name__, repr(o)[:80]]
+    return ["other", type(o).__name__, re.sub(r"0x[0-9a-fA-F]+", "0x?", repr(o))[:80]]  # no addresses
+
+
+def _addr_free_repr(o: Any) -> str:
+    return re.sub(r"0x[0-9a-fA-F]+", "0x?", repr(o))
 
 
 def _scribble(o: Any, depth: int = 0, budget: Optional[List[int]] = None) -> None:
@@ -183,7 +188,7 @@ def do_use(conv: Any, k: int) -> Tuple:
         if inp != js:
             return ("mutated-input", "structure() changed the caller's input value")
         img = core.digest(typed(obj))
-        out = json.dumps(conv.unstructure(obj), sort_keys=False, default=repr)
+        out = json.dumps(conv.unstructure(obj), sort_keys=False, default=_addr_free_repr)
         # the same call again after the first result was scribbled over: must be unaffected
         _scribble(obj)
         obj2 = conv.structure(json.loads(json.dumps(js)), t)
@@ -199,7 +204,7 @@ def do_build(conv: Any, k: int) -> Tuple:
     lsp = Z["lsp"]
     try:
         obj = eval(expr, {"lsp": lsp})
-        out = json.dumps(conv.unstructure(obj), sort_keys=False, default=repr)
+        out = json.dumps(conv.unstructure(obj), sort_keys=False, default=_addr_free_repr)
         # and back again through the declared class
         back = conv.structure(json.loads(out), type(obj))
         return ("ok", core.digest(out), core.digest(typed(back)))
